@@ -75,16 +75,15 @@ theorem pyEqDict_of {E : Ext} {env : Env} (vt : PTy) (ys : List (PyVal × PyVal)
 theorem all_contains_self (l : List String) : l.all l.contains = true := by
   simp [List.all_eq_true]
 
-/-- under validity, what `decode_struct_fields` fills in for a member that is absent from the document is
-`None` -/
-theorem fill_default_none {E : Ext} {env : Env} {slots : List (String × PyVal)}
+/-- under validity, a member that is absent from the document and that `decode_struct_fields` fills in has a
+nullable validator -/
+theorem fill_default_nullable {E : Ext} {env : Env} {slots : List (String × PyVal)}
     {f : FieldDef} (hfrt : fieldRT env f = true) (hvoid : isVoidT f.ty = false)
     (hhas : attrHas f slots = true)
     (hvalid : ∀ x, lookupSlot f.name slots = some x → validB E env f.ty x = true)
     (hnone : ∀ x, lookupSlot f.name slots = some x → isNoneV x = true)
-    (hd : (hasDefault env f.ty && !f.attrNullable) = true) : getDefault f.ty = .none := by
+    (hd : (hasDefault env f.ty && !f.attrNullable) = true) : f.ty.flags.nullable = true := by
   simp only [Bool.and_eq_true, Bool.not_eq_true'] at hd
-  apply getDefault_none_of_nullable
   cases hl : lookupSlot f.name slots with
   | some x =>
     have hx := hnone x hl
@@ -103,6 +102,15 @@ theorem fill_default_none {E : Ext} {env : Env} {slots : List (String × PyVal)}
     cases hdf : f.dflt with
     | none => rw [hdf] at hhas; cases hhas
     | some d => exact ((fieldRT_parts hfrt).2.2 d hdf hd.1).1
+
+/-- ... so what is filled in is `None` -/
+theorem fill_default_none {E : Ext} {env : Env} {slots : List (String × PyVal)}
+    {f : FieldDef} (hfrt : fieldRT env f = true) (hvoid : isVoidT f.ty = false)
+    (hhas : attrHas f slots = true)
+    (hvalid : ∀ x, lookupSlot f.name slots = some x → validB E env f.ty x = true)
+    (hnone : ∀ x, lookupSlot f.name slots = some x → isNoneV x = true)
+    (hd : (hasDefault env f.ty && !f.attrNullable) = true) : getDefault f.ty = .none :=
+  getDefault_none_of_nullable (fill_default_nullable hfrt hvoid hhas hvalid hnone hd)
 
 end StoneVerif.Rt.RoundTrip
 
